@@ -622,6 +622,54 @@ def algAddOp (plus : α → β → α) (d : Nat) (x : T α) (a : T β) : Option 
 def retrOp (exp : β → γ) (mul : γ → α → α) (dG : Nat) (x : T α) (a : T β) : Option (Out α) :=
   binop mul dG dG ⟨a.shape, (unop exp dG a).data⟩ x
 
+/-! ## views: strided addressing (pass 7)
+
+What torch hands to an op when the operand is a VIEW (`X[::2]`, `X[:, 1]`, `X.expand(…)` of a base tensor): the base storage, an
+offset and one stride per dimension — no items are moved.  `View.get` is the address computation; `View.contiguous` is
+`.contiguous()` (what `broadcast_inputs` / every op site calls before the kernel runs): the viewed items in row-major order.
+`View.slice / select / expand` are torch's own stride rules for the three kinds of views the harness builds. -/
+
+/-- `Σ_k i_k * st_k` -/
+def dot : List Nat → List Nat → Nat
+  | i :: is, st :: sts => i * st + dot is sts
+  | _, _ => 0
+
+/-- strides of a contiguous (row-major) tensor of lshape `s`, in items -/
+def cstrides : Shape → List Nat
+  | [] => []
+  | _ :: s => numel s :: cstrides s
+
+structure View (α : Type) where
+  base : Nat → α
+  offset : Nat
+  strides : List Nat
+  shape : Shape
+
+def View.get (v : View α) (i : List Nat) : α := v.base (v.offset + dot i v.strides)
+
+/-- a contiguous tensor seen as a view of itself -/
+def View.ofT (t : T α) : View α := ⟨t.data, 0, cstrides t.shape, t.shape⟩
+
+/-- `.contiguous()`: copy the viewed items out in row-major order -/
+def View.contiguous (v : View α) : T α := ⟨v.shape, fun k => v.get (unravel v.shape k)⟩
+
+/-- `v[..., start : start + len*step : step, ...]` along `dim` (also `narrow`; `len` positions): offset and stride change, nothing moves -/
+def View.slice (v : View α) (dim start step len : Nat) : View α :=
+  ⟨v.base, v.offset + start * v.strides.getD dim 0, v.strides.modify dim (· * step), v.shape.set dim len⟩
+
+/-- `v.select(dim, idx)` / `v[..., idx, ...]`: the dimension disappears -/
+def View.select (v : View α) (dim idx : Nat) : View α :=
+  ⟨v.base, v.offset + idx * v.strides.getD dim 0, v.strides.eraseIdx dim, v.shape.eraseIdx dim⟩
+
+/-- stride rule of `expand` for equal rank: stride 0 where the extent 1 is expanded -/
+def expandStridesEq : Shape → List Nat → List Nat
+  | n :: s, st :: sts => (if n = 1 then 0 else st) :: expandStridesEq s sts
+  | _, _ => []
+
+/-- `v.expand(s')`: new leading dimensions and expanded extent-1 dimensions get stride 0 -/
+def View.expand (v : View α) (s' : Shape) : View α :=
+  ⟨v.base, v.offset, List.replicate (s'.length - v.shape.length) 0 ++ expandStridesEq v.shape v.strides, s'⟩
+
 /-! ## `retain_ltype` as a state machine
 
 Slots `0,1,2` are the three torch attributes (`forward_ad.make_dual`, `eager_transforms._wrap_tensor_for_grad`,
